@@ -520,7 +520,7 @@ def tlc_generate_spline(ctx, order):
     if not hasattr(ctx, "_gen"):
         ctx._gen = {}
     if key not in ctx._gen:
-        ctx._gen[key] = tlc_generate(ctx, "MCSplineObj", mcobj_cfg(mo, 2, True), "splineobj_o%d" % mo)
+        ctx._gen[key] = tlc_generate(ctx, "MCSplineObj", mcobj_cfg(mo, 3, True), "splineobj_o%d" % mo, workers=1)   # histories of up to 3 calls
     return ctx._gen[key]
 
 
@@ -655,10 +655,10 @@ PP_NC = {1: 4, 2: 8, 3: 10}          # abstract coefficient counts (model Static
 PP_FIXED = {0: -1, 3: 12, 2: 8}      # abstract order parameter -> concrete ORDER (2 -> 8: ten coefficients are rejected)
 
 
-def mcppoly_cfg(fixed, maxops, emit, broken="none"):
-    return ("SPECIFICATION Spec\nCONSTANTS\n  StaticLimit = 2\n  Ids = {1, 2}\n  Fixed = %d\n  Ncs = {1, 2, 3}\n  Segs = {1, 2}\n  Versions = {1, 2}\n"
+def mcppoly_cfg(fixed, maxops, emit, broken="none", ncs="{1, 2, 3}"):
+    return ("SPECIFICATION Spec\nCONSTANTS\n  StaticLimit = 2\n  Ids = {1, 2}\n  Fixed = %d\n  Ncs = %s\n  Segs = {1, 2}\n  Versions = {1, 2}\n"
             "  MaxOps = %d\n  Emit = %s\n  Broken = \"%s\"\nINVARIANT Inv\nCONSTRAINT EmitScripts\nVIEW View\nCHECK_DEADLOCK FALSE\n"
-            % (fixed, maxops, "TRUE" if emit else "FALSE", broken))
+            % (fixed, ncs, maxops, "TRUE" if emit else "FALSE", broken))
 
 
 def expand_ppoly_script(r, tabseed, fixed, hist, dim):
@@ -724,7 +724,7 @@ def pp_lifecycle_execs(ctx, r, nsample):
     from vcheck import tlc_generate
     execs = []
     for fixed in (0, 3, 2):
-        scripts = tlc_generate(ctx, "MCPPolyObj", mcppoly_cfg(fixed, 2, True), "ppolyobj_f%d" % fixed)
+        scripts = tlc_generate(ctx, "MCPPolyObj", mcppoly_cfg(fixed, 3, True, ncs="{1, 3}"), "ppolyobj_f%d" % fixed, workers=1)   # histories of up to 3 calls
         groups = {}
         for h in scripts:
             last = h[-1]
